@@ -1365,9 +1365,13 @@ def run(ctx):
     # quick: the allocator graph over one kind per (class vector, size bucket, alignment); the kinds left out
     # (l p Sc3 Sff Sdd Sif Udl Sc16) are in every signature of length <= 2 below.  thorough: all 22.
     qkinds = '{"i","f","d","e","Si","Sd","Sfff","Sld","Sdl","Sll","S24","Se","See","Sel","S0"}'
+    # quick signatures (length <= 2): every kind except the second and third representative of a root cause that
+    # the packed / over-aligned kinds Pcf and Al already stand for (Pcd Pic Ad are return kinds of SysV_rets in every
+    # tier and parameter kinds of the thorough tier)
+    qsig = "{" + ",".join('"%s"' % k for k in KT if k not in NARROW and k != "v" and k not in ("Pcd", "Pic", "Ad")) + "}"
     # thorough signatures (length 3): without the near-duplicates of the zero-sized kinds (all kinds are in the length-2 signatures)
     tkinds = "{" + ",".join('"%s"' % k for k in KT if k not in NARROW and k != "v" and k not in ("U0", "S0w", "S0i", "Sd0")) + "}"
-    for name, over in (("graph", dict(ParamSel=qkinds) if q else {}), ("sigs", dict(MaxLen=2) if q else dict(MaxLen=3, ParamSel=tkinds)), ("rets", {})):
+    for name, over in (("graph", dict(ParamSel=qkinds) if q else {}), ("sigs", dict(MaxLen=2, ParamSel=qsig) if q else dict(MaxLen=3, ParamSel=tkinds)), ("rets", {})):
         outs[name] = os.path.join(ctx.scratch, name + ".ndjson")
         res = tlc_run(ctx, "SysV_%s.cfg" % name, outs[name], workers=8, **over)
         check_model(ctx, res, name)
